@@ -39,6 +39,7 @@ func init() {
 			{ID: "C02.R18", Text: "the sampled high sequence number (latest start, finite end) is the largest any node/collection reported (same rule as C15.R16)", Run: seqnoMerge},
 			{ID: "C02.R19", Text: "the backend and the requested end are chosen by the documented values of metadata.type and dcp.mode (same rule as C15.R18)", Run: configPredicates},
 			{ID: "C02.R20", Text: "what is stored is what was handed over: the backends marshal the document they are given under the id of the same vBucket and write nothing else (same rule as C01.R6)", Run: c01r6},
+			{ID: "C02.R21", Text: "in read-only mode the session resumes from what the wrapped store holds now (same rule as C15.R22)", Run: readOnlyForwardsLoad},
 			{ID: "C02.R6", Text: "read-only wrapper: Save/Clear perform no call and return nil, Load forwards its parameters; Start wraps the metadata whenever Metadata.ReadOnly and under no other condition", Run: c02r6},
 		},
 	})
